@@ -1,3 +1,197 @@
 import Usual.Common
-/-! Model driver for C03 (stub: not built yet). -/
-def main : IO Unit := IO.println "stub"
+import Usual.C03.Build
+/-! Model driver for C03: JSON builder / render / re-parse (line protocol of FRAMEWORK.md).
+
+Slots: every constructor line (`null bool int float str list dict parse`) takes the next slot
+number; a slot holds a heap id or NULL.  `N` names the NULL pointer in argument position. -/
+open Usual Usual.C03
+
+structure St where
+  heap : Heap := {}
+  slots : Array (Option Nat) := #[]
+  fmt : List (UInt64 × Bytes) := []      -- %.17g texts reported on the op lines
+  sd : List (Bytes × UInt64) := []       -- number token → bits (for re-parsing)
+
+def parseBits (s : String) : Option UInt64 :=
+  if s.length != 16 then none else
+  match parseHex s with
+  | some bs => some (UInt64.ofNat (bs.foldl (fun a b => a * 256 + b.toNat) 0))
+  | none => none
+
+/-- `-?[0-9]+` -/
+def strictInt (s : String) : Option Int :=
+  let cs := s.toList
+  let (neg, ds) := match cs with | '-' :: r => (true, r) | r => (false, r)
+  if ds.isEmpty || !ds.all Char.isDigit then none else
+  let n : Nat := ds.foldl (fun a c => a * 10 + (c.toNat - 48)) 0
+  some (if neg then -(n : Int) else n)
+
+def bitsHex (x : UInt64) : String :=
+  toHex ((List.range 8).map fun i => UInt8.ofNat ((x.toNat >>> (8 * (7 - i))) % 256))
+
+def fmtOf (st : St) (x : UInt64) : Bytes :=
+  match st.fmt.find? (·.1 == x) with
+  | some (_, t) => t
+  | none => []
+
+def sdOf (st : St) (t : Bytes) : Option UInt64 :=
+  match st.sd.find? (·.1 == t) with
+  | some (_, x) => some x
+  | none => none
+
+/-- register the `%.17g` text of a double; returns the state and a marker when a hypothesis of
+the round-trip theorem does not hold for this text -/
+def addFmt (st : St) (x : UInt64) (t : Bytes) : St × String :=
+  let tok := renderFloat (fun _ => t) x
+  let st' := { st with fmt := (x, t) :: st.fmt, sd := (tok, x) :: st.sd }
+  (st', if isFinite x && !floatTok tok then " HYP-floatTok-fails" else "")
+
+def slotArg (st : St) (w : String) : Option (Option Nat) :=
+  if w == "N" then some none else
+  match w.toNat? with
+  | some n => if n < st.slots.size then some (st.slots[n]!) else none
+  | none => none
+
+mutual
+partial def dump : JVal → String
+  | .null => "n"
+  | .bool b => if b then "t" else "f"
+  | .int i => s!"i{i}"
+  | .float x => "d" ++ bitsHex x
+  | .str s => "s" ++ toHex s
+  | .list l => "[" ++ ",".intercalate (l.map dump) ++ "]"
+  | .dict kvs => "{" ++ ",".intercalate (kvs.map fun (k, v) => toHex k ++ ":" ++ dump v) ++ "}"
+end
+
+def sizeIter (st : St) (p : Option Nat) : String :=
+  let it := match st.heap.iter p with
+    | some l => toString l.length
+    | none => "-"
+  s!"sz={st.heap.valueSize p} it={it}"
+
+def scalarOf (st : St) (kind : String) (args : List String) : Option (Scalar × St × String) :=
+  match kind, args with
+  | "null", [] => some (.null, st, "")
+  | "bool", [b] => if b == "0" then some (.bool false, st, "") else if b == "1" then some (.bool true, st, "") else none
+  | "int", [n] =>
+    match strictInt n with
+    | some i => if -(2:Int)^63 ≤ i && i < (2:Int)^63 then some (.int i, st, "") else none
+    | none => none
+  | "float", [b, t] =>
+    match parseBits b, parseHex t with
+    | some x, some tb => let (st', m) := addFmt st x tb; some (.float x, st', m)
+    | _, _ => none
+  | "str", [h] =>
+    match parseHex h with
+    | some bs => if bs.contains 0 then none else some (.str bs, st, "")
+    | none => none
+  | _, _ => none
+
+def pushSlot (st : St) (p : Option Nat) : St := { st with slots := st.slots.push p }
+
+def doOp (st : St) (op : Op) : St × Ret :=
+  let (h, r) := st.heap.step true op
+  ({ st with heap := h }, r)
+
+def retStr : Ret → String
+  | .ptr p => if p.isSome then "ptr 1" else "ptr 0"
+  | .flag b => if b then "ret 1" else "ret 0"
+
+def parseSd (w : String) : Option (List (Bytes × UInt64)) :=
+  if w == "-" then some [] else
+  (w.splitOn ";").mapM fun item =>
+    match item.splitOn "=" with
+    | [t, b] => match parseHex t, parseBits b with
+      | some tb, some x => some (tb, x)
+      | _, _ => none
+    | _ => none
+
+def valueOf (st : St) (p : Option Nat) : Option JVal :=
+  match p with
+  | some i => st.heap.value i
+  | none => none
+
+def step (st : St) (line : String) : St × String :=
+  match words line with
+  | ["#case"] => ({}, "#case")
+  | "list" :: [] => let (st', r) := doOp st .newList
+                    match r with | .ptr p => (pushSlot st' p, retStr r) | _ => (st, "bad-op")
+  | "dict" :: [] => let (st', r) := doOp st .newDict
+                    match r with | .ptr p => (pushSlot st' p, retStr r) | _ => (st, "bad-op")
+  | ["append", l, v] =>
+    match slotArg st l, slotArg st v with
+    | some lp, some vp => let (st', r) := doOp st (.append lp vp); (st', retStr r ++ " " ++ sizeIter st' lp)
+    | _, _ => (st, "bad-op")
+  | ["put", d, k, v] =>
+    match slotArg st d, parseHex k, slotArg st v with
+    | some dp, some kb, some vp =>
+      if kb.contains 0 then (st, "bad-op") else
+      let (st', r) := doOp st (.put dp kb vp); (st', retStr r ++ " " ++ sizeIter st' dp)
+    | _, _, _ => (st, "bad-op")
+  | ["size", v] =>
+    match slotArg st v with
+    | some vp => (st, sizeIter st vp)
+    | none => (st, "bad-op")
+  | ["render", v] =>
+    match slotArg st v with
+    | some (some i) =>
+      (match st.heap.value i with
+       | some jv => (st, "r " ++ toHex (render (fmtOf st) jv))
+       | none => (st, "cyclic"))
+    | _ => (st, "bad-op")
+  | ["dump", v] =>
+    match slotArg st v with
+    | some (some i) =>
+      (match st.heap.value i with
+       | some jv => (st, "v " ++ dump jv)
+       | none => (st, "cyclic"))
+    | _ => (st, "bad-op")
+  | ["rt", v] =>
+    match slotArg st v with
+    | some (some i) =>
+      (match st.heap.value i with
+       | some jv =>
+         (match Rfc.parse (sdOf st) (render (fmtOf st) jv) with
+          | some jv' => (st, "rt " ++ dump jv')
+          | none => (st, "rt-fail"))
+       | none => (st, "cyclic"))
+    | _ => (st, "bad-op")
+  | ["parse", doc, tab] =>
+    match parseHex doc, parseSd tab with
+    | some d, some t =>
+      let st1 := { st with sd := t ++ st.sd }
+      (match Rfc.parse (sdOf st1) d with
+       | none => (pushSlot st1 none, "ptr 0")
+       | some jv =>
+         let base := st1.heap.cells.length
+         let (ops, root, _) := buildOps jv base
+         let (h, _) := st1.heap.run true (ops ++ [.seal (some root)])
+         (pushSlot { st1 with heap := h } (some root), "ptr 1"))
+    | _, _ => (st, "bad-op")
+  | kind :: args =>
+    if kind.startsWith "append_" then
+      match args with
+      | l :: rest =>
+        (match slotArg st l, scalarOf st (kind.drop 7).toString rest with
+         | some (some li), some (s, st1, m) =>
+           let (st', r) := doOp st1 (.appendS li s); (st', retStr r ++ " " ++ sizeIter st' (some li) ++ m)
+         | _, _ => (st, "bad-op"))
+      | _ => (st, "bad-op")
+    else if kind.startsWith "put_" then
+      match args with
+      | d :: k :: rest =>
+        (match slotArg st d, parseHex k, scalarOf st (kind.drop 4).toString rest with
+         | some (some di), some kb, some (s, st1, m) =>
+           if kb.contains 0 then (st, "bad-op") else
+           let (st', r) := doOp st1 (.putS di kb s); (st', retStr r ++ " " ++ sizeIter st' (some di) ++ m)
+         | _, _, _ => (st, "bad-op"))
+      | _ => (st, "bad-op")
+    else
+      match scalarOf st kind args with
+      | some (s, st1, m) =>
+        let (st', r) := doOp st1 (.new s)
+        (match r with | .ptr p => (pushSlot st' p, retStr r ++ m) | _ => (st, "bad-op"))
+      | none => (st, "bad-op")
+  | [] => (st, "bad-op")
+
+def main : IO Unit := runDriver ({} : St) step
